@@ -42,7 +42,7 @@ AInit(c) == [a |-> c.addr, need |-> {}, integDone |-> FALSE, amb |-> FALSE,
              ft |-> [n \in {"clr", "dis", "integ", "time", "en", "evscan"} |-> 0]]      \* time of the last one
 MonInit == [cfg |-> [assocs |-> <<>>], sc |-> "", viol |-> <<>>, out |-> NoOut, A |-> <<>>,
             up |-> FALSE, en |-> TRUE, pipe |-> FALSE]
-V(m, reason, l, ctx) == [m EXCEPT !.viol = Append(@, Viol("C17", reason, l, m.sc, ctx))]
+V(m, reason, l, ctx) == [m EXCEPT !.viol = IF Len(@) >= 300 THEN @ ELSE Append(@, Viol("C17", reason, l, m.sc, ctx))]
 
 Ix(m, addr) == IF \E i \in 1..Len(m.A) : m.A[i].a = addr THEN CHOOSE i \in 1..Len(m.A) : m.A[i].a = addr ELSE 0
 Configured(c) == (IF c.dis THEN {"dis"} ELSE {}) \cup (IF c.integ THEN {"integ"} ELSE {}) \cup (IF c.en THEN {"en"} ELSE {})
